@@ -12,7 +12,7 @@ import (
 func init() {
 	register(&propInfo{
 		id: "C19", fn: checkC19, multiConfig: true,
-		explanation: "Exactly-once over all directory sizes and byte counts is a runtime statement; decided are the structural conditions without which paging cannot be right, cross-checked over every Readdir implementation of the module: (r1) server truncation — rreaddir.encode emits a prefix of whole entries within Count, in order (the idiom verified by the layout extractor, C01.r9), and the server gives the backend's entries to it unchanged; (r2) stateless resume — an implementation that pulls entries from a stateful cursor ((*os.File).Readdirnames/Readdir/ReadDir) and numbers them from zero must first reposition that cursor in the same call (Seek(0, io.SeekStart) on the same file on every path before the first pull); (r3) cookie discipline — the Offset stored in each Dirent strictly increases (index+1 from the slice start, or a counter incremented once per pulled entry) and the entry whose cookie equals the offset argument is not returned again: slicing from names[offset:] with Offset = offset+i+1, or a skip test that holds for cookie == offset (decided on the orderings <, =, > of the two values through the path facts at the append site); a request beyond the end returns nothing; (r4) stable order — a name list produced from a map reaches readdir.Readdir only after a sort of that very list; (r5) QID/type agreement by construction — in every Dirent literal Type is the .Type of the value stored in QID, and that QID comes from the producer the implementation's Walk/GetAttr use (localfs: (*Local).info for all three; staticfs: the attacher's qids table for Walk and Readdir; composefs: GetAttr of the mounted file in both); the wrapper qidTransformFile overrides every QID-returning method of p9.File and maps the QIDs through the same Mapper; a Readdir implementation returns a slice built in that call (not a window into long-lived state the wrapper would rewrite in place). (r5, continued) the QID mapper hands out one path per file under concurrency: lookup and insert are one critical section (the rule of C20.r1); (r6) the reply is cut to the clamped Count, not the requested one (the rule of C13.r2).",
+		explanation: "Exactly-once over all directory sizes and byte counts is a runtime statement; decided are the structural conditions without which paging cannot be right, cross-checked over every Readdir implementation of the module: (r1) server truncation — rreaddir.encode emits a prefix of whole entries within Count, in order (the idiom verified by the layout extractor, C01.r9), and the server gives the backend's entries to it unchanged; (r2) stateless resume — an implementation that pulls entries from a stateful cursor ((*os.File).Readdirnames/Readdir/ReadDir) and numbers them from zero must first reposition that cursor in the same call (Seek(0, io.SeekStart) on the same file on every path before the first pull); (r3) cookie discipline — the Offset stored in each Dirent strictly increases (index+1 from the slice start, or a counter incremented once per pulled entry) and the entry whose cookie equals the offset argument is not returned again: slicing from names[offset:] with Offset = offset+i+1, or a skip test that holds for cookie == offset (decided on the orderings <, =, > of the two values through the path facts at the append site); a request beyond the end returns nothing; (r4) stable order — a name list produced from a map reaches readdir.Readdir only after a sort of that very list; (r5) QID/type agreement by construction — in every Dirent literal Type is the .Type of the value stored in QID, and that QID comes from the producer the implementation's Walk/GetAttr use (localfs: (*Local).info for all three; staticfs: the attacher's qids table for Walk and Readdir; composefs: GetAttr of the mounted file in both); the wrapper qidTransformFile overrides every QID-returning method of p9.File and maps the QIDs through the same Mapper; a Readdir implementation returns a slice built in that call (not a window into long-lived state the wrapper would rewrite in place). (r5, continued) the QID mapper hands out one path per file under concurrency: lookup and insert are one critical section (the rule of C20.r1); (r6) the reply is cut to the clamped Count, not the requested one (the rule of C13.r2). (r7) the bound the reply is clamped against is the msize announced to the client, not the one it proposed (the rule of C12.r3).",
 		assumptions: []string{"explicitly partial: completeness/no-duplicates for concrete sizes, os.File directory-stream semantics and the 'as long as one entry fits' progress clause are not decided"},
 	})
 }
@@ -220,6 +220,9 @@ func checkC19(r *Run) {
 		// clamped one, not the requested one (the rule of C13.r2) - a too large Rreaddir ends
 		// the listing with a connection error on the client
 		r.borrow(checkC13, map[string]string{"r2": "r6"})
+		// r7: ... and the bound it is clamped against is the msize that was announced to the
+		// client, not the one it proposed (the rule of C12.r3)
+		r.borrow(checkC12, map[string]string{"r3": "r7"})
 		// ... and the client asks for what its caller asked for (C03.r1: parameters are sent
 		// as passed) - a client-side clamp below one entry ends the listing early
 		r.borrow(checkC03, map[string]string{"r1": "r6"})
